@@ -58,9 +58,11 @@ GTree(F) ==
 (* ---- case matrices ---- *)
 Ki == 1024
 WLens == <<0, 1, 64 * Ki - 1, 64 * Ki, 64 * Ki + 1, 256 * Ki - 1, 256 * Ki, 256 * Ki + 1,
-           Ki * Ki - 1, Ki * Ki, Ki * Ki + 1, 3 * Ki * Ki>> \o (IF GWide THEN <<2 * Ki * Ki + 17, 5 * Ki * Ki + 3>> ELSE <<>>)
+           Ki * Ki - 1, Ki * Ki, Ki * Ki + 1, 3 * Ki * Ki,
+           \* just past the offsets where the hard cap cuts content that never splits (256 KiB + k * 1 MiB)
+           256 * Ki + Ki * Ki + 1, 256 * Ki + Ki * Ki + 200, 256 * Ki + Ki * Ki + 20000>> \o (IF GWide THEN <<2 * Ki * Ki + 17, 5 * Ki * Ki + 3>> ELSE <<>>)
 WClasses == {"zeros", "random", "periodic", "splitoften", "splitnever"}
-WFrags == {"whole", "onebyte", "dataeof", "half"}
+WFrags == {"whole", "onebyte", "dataeof", "half", "oddeof"}   \* oddeof: reads of 10007 bytes, the last one returning data and EOF together
 WCases == {[len |-> WLens[i], class |-> c, frag |-> f] : i \in 1..Len(WLens), c \in WClasses, f \in WFrags}
 
 DCounts(max) == {0, 1, max - 1, max, max + 1, max * max - 1, max * max, max * max + 1, max * max + max + 1}
